@@ -157,6 +157,25 @@ def local_body(I, c):
     return None
 
 
+def _dispatch_local_trait(I, c, args):
+    tr = c.get("trait")
+    if not tr or not args:
+        return None
+    recv = args[0]
+    if isinstance(recv, PlaceRef):
+        return None
+    tname = recv.name.split("::")[0] if isinstance(recv, Struct) else None
+    if tname is None:
+        return None
+    hits = []
+    for fn in I.f.items["fns"]:
+        if fn.get("name") == c.get("name") and (fn.get("impl_trait") or "") == tr:
+            st = fn.get("impl_self") or ""
+            if st.split("<")[0].split("::")[-1] == tname and I.body_of(fn["path"]) is not None:
+                hits.append(fn["path"])
+    return hits[0] if len(hits) == 1 else None
+
+
 def do_push(I, var, path, val, env):
     if I.loops and var not in I.loops[-1].inner_vars:
         lc = I.loops[-1]
@@ -542,6 +561,11 @@ def call_values(I, c, args, e=None, env=None):
     bp = local_body(I, c)
     if bp is not None:
         return I.run_fn(bp, args, None)
+    # a method of a crate-local trait called on a value whose type is known here (inside a default method the call is abstract in
+    # `Self`): dispatch to that type's impl
+    dp = _dispatch_local_trait(I, c, args)
+    if dp is not None:
+        return I.run_fn(dp, args, None)
     raise Undecided("call of %s" % (c.get("full") or path), e.get("span") if e else None)
 
 
